@@ -265,8 +265,9 @@ impl<K: KeyT, V: ValT> World<K, V> {
                     Err(pn) => self.handle_panic(acc, pn, &[]),
                 }
             }
-            Op::Extend { m, items, by_ref } => {
+            Op::Extend { m, items, by_ref, hint } => {
                 let mi = *m as usize;
+                let hint = *hint;
                 let items: &Vec<(u32, u32)> = &items.iter().map(|&(k, p)| (k, V::norm(p))).collect();
                 let before = self.maps[mi].m.verif_state();
                 let objs: Vec<(K, V)> = items.iter().map(|&(kv, p)| (K::make(kv), V::make(p))).collect();
@@ -282,7 +283,11 @@ impl<K: KeyT, V: ValT> World<K, V> {
                             return true;
                         }
                     }
-                    sut(|| slot.m.extend(objs));
+                    if hint == 0 {
+                        sut(|| slot.m.extend(objs));
+                    } else {
+                        sut(|| slot.m.extend(LyingIter { inner: objs.into_iter(), hint }));
+                    }
                     false
                 });
                 let stats = (co.hashes, co.alloc.allocs);
@@ -300,9 +305,19 @@ impl<K: KeyT, V: ValT> World<K, V> {
                         if before.split {
                             acc.probe("extend-while-split");
                         }
+                        if hint != 0 {
+                            acc.probe("extend-with-lying-size-hint");
+                        }
                         self.post_map(acc, mi, before, stats, Cost::Exempt, false, 0, false);
                     }
-                    Err(pn) => self.handle_panic(acc, pn, &[]),
+                    Err(pn) => {
+                        // a hint of usize::MAX cannot be reserved: documented capacity overflow
+                        let doc: &[&str] = if hint == 3 { &["capacity-overflow"] } else { &[] };
+                        self.handle_panic(acc, pn, doc);
+                        if hint == 3 && !acc.out.fatal {
+                            acc.probe("extend-hint-overflow-panic");
+                        }
+                    }
                 }
             }
             Op::FromIter { m, items } => {
